@@ -358,7 +358,7 @@ Section Structures.
         apply N_to_dec_dec.
       + destruct (str_eqb p [42]).
         * tok_inv Hx.
-          apply (ST_one_eq st (L "parameters += wrapify(stack, pop(arg_stack, 1, ctx=ctx), ctx=ctx)"));
+          apply (ST_one_eq st (L "parameters += wrapify(arg_stack, pop(arg_stack, 1, ctx=ctx), ctx=ctx)"));
             [reflexivity|]. apply safe_core_fixed. reflexivity.
         * tok_inv Hx.
           apply (ST_one_eq st (L "VAR_" ++ keep re_keep_fnparam p ++ L " =pop(arg_stack, 1, ctx=ctx)"));
